@@ -23,6 +23,13 @@ type Solver struct {
 	log     io.Writer
 	stats   *SolverStats
 	dead    bool
+	// one-shot mode (kind "cvc5-int-oneshot"): every query is a fresh process fed with the
+	// definitions the query needs, the path condition as ASSERTIONS and a plain (check-sat).
+	// cvc5's integer translation decides div/mod-by-constant lemmas in milliseconds this way
+	// and not at all under check-sat-assuming (measured: DESIGN §3.4c).
+	oneshot   bool
+	timeoutMs int
+	script    []string
 }
 
 type SolverStats struct {
@@ -46,6 +53,9 @@ func solverCommand(kind string, timeoutMs int) (string, []string, []string) {
 }
 
 func NewSolver(kind string, timeoutMs int, logw io.Writer, stats *SolverStats) *Solver {
+	if kind == "cvc5-int-oneshot" {
+		return &Solver{kind: kind, oneshot: true, timeoutMs: timeoutMs, emitted: map[int]bool{}, ufs: map[string]bool{}, vars: map[string]bool{}, log: logw, stats: stats}
+	}
 	bin, args, prelude := solverCommand(kind, timeoutMs)
 	cmd := exec.Command(bin, args...)
 	in, _ := cmd.StdinPipe()
@@ -62,7 +72,7 @@ func NewSolver(kind string, timeoutMs int, logw io.Writer, stats *SolverStats) *
 }
 
 func (s *Solver) Close() {
-	if s == nil || s.dead {
+	if s == nil || s.dead || s.oneshot {
 		return
 	}
 	s.dead = true
@@ -72,6 +82,10 @@ func (s *Solver) Close() {
 }
 
 func (s *Solver) send(c string) {
+	if s.oneshot {
+		s.script = append(s.script, c)
+		return
+	}
 	if s.log != nil {
 		fmt.Fprintln(s.log, c)
 	}
@@ -163,7 +177,55 @@ func (s *Solver) readSexp() string {
 
 // CheckPC decides satisfiability of the conjunction of pc (and extra, if not nil). The answer is
 // "sat", "unsat" or "unknown"; any error line counts as unknown.
+func (s *Solver) runOneShot(tail string) string {
+	cmd := exec.Command("cvc5", "--lang=smt2", "--produce-models", "--solve-bv-as-int=sum", fmt.Sprintf("--tlimit=%d", s.timeoutMs))
+	cmd.Stdin = strings.NewReader("(set-logic ALL)\n" + strings.Join(s.script, "\n") + "\n" + tail + "\n")
+	out, _ := cmd.CombinedOutput()
+	return string(out)
+}
+
+func (s *Solver) checkOneShot(pc []*Term, extra *Term) string {
+	s.script, s.emitted, s.ufs, s.vars = nil, map[int]bool{}, map[string]bool{}, map[string]bool{}
+	for _, c := range pc {
+		if c.isTrue() {
+			continue
+		}
+		s.emit(c)
+		s.send("(assert " + c.ref() + ")")
+	}
+	if extra != nil {
+		s.emit(extra)
+		s.send("(assert " + extra.ref() + ")")
+	}
+	t0 := time.Now()
+	out := s.runOneShot("(check-sat)")
+	s.stats.Dur += time.Since(t0)
+	s.stats.Queries++
+	if s.stats.ByBackend == nil {
+		s.stats.ByBackend = map[string]int{}
+	}
+	s.stats.ByBackend[s.kind]++
+	r := strings.TrimSpace(out)
+	if strings.Contains(out, "(error") {
+		s.stats.Errors++
+		r = "unknown"
+	}
+	switch r {
+	case "sat":
+		s.stats.Sat++
+	case "unsat":
+		s.stats.Unsat++
+	default:
+		s.stats.Unknown++
+		r = "unknown"
+	}
+	return r
+}
+
 func (s *Solver) CheckPC(pc []*Term, extra *Term) string {
+	if s.oneshot {
+		return s.checkOneShot(pc, extra)
+	}
 	if s.dead {
 		return "unknown"
 	}
@@ -208,6 +270,19 @@ func (s *Solver) CheckPC(pc []*Term, extra *Term) string {
 
 // Values returns the model values of ts after a sat answer (terms must be Bool or BitVec).
 func (s *Solver) Values(ts []*Term) ([]uint64, error) {
+	if s.oneshot {
+		var refs []string
+		for _, t := range ts {
+			s.emit(t)
+			refs = append(refs, t.ref())
+		}
+		out := s.runOneShot("(check-sat)\n(get-value (" + strings.Join(refs, " ") + "))")
+		i := strings.Index(out, "(")
+		if !strings.HasPrefix(strings.TrimSpace(out), "sat") || i < 0 || strings.Contains(out, "(error") {
+			return nil, fmt.Errorf("one-shot get-value: %s", tail(out, 3))
+		}
+		return parseValues(out[i:], len(ts))
+	}
 	res := make([]uint64, len(ts))
 	const chunk = 200
 	for lo := 0; lo < len(ts); lo += chunk {
